@@ -29,7 +29,22 @@ class RunResult(object):
                  'nontrivial', 'profile', 'states', 'trigrams', 'outcomes', 'harness_error')
 
 
-def summarise(prop, w, steps):
+def abstract_state(w):
+    """(hash of the abstract world state, set of slots carrying a raised flag) right now."""
+    ws = []
+    flagged = set()
+    for i in w.live():
+        o = w.slots[i].obj
+        fl = tuple(bool(o.status.get(f)) for f in ('overflow', 'underflow', 'inaccuracy')) \
+            if isinstance(o.status, dict) else None
+        if fl and any(fl):
+            flagged.add(i)
+        ws.append((o.signed, o.n_word, o.n_frac, fl, w.slots[i].origin,
+                   sum(1 for j in w.live() if w.slots[j].token == w.slots[i].token)))
+    return hash(tuple(sorted(ws, key=repr))), frozenset(flagged)
+
+
+def summarise(prop, w, steps, post=()):
     """(nontrivial, signature, abstract states, op trigrams) of a finished run."""
     kinds = []
     nontrivial = False
@@ -37,7 +52,10 @@ def summarise(prop, w, steps):
     flagged = set()
     hop_inexact_seen = False
     states = set()
-    for st in steps:
+    for idx, st in enumerate(steps):
+        if idx < len(post):
+            states.add(post[idx][0])
+        flagged_before = post[idx - 1][1] if 0 < idx <= len(post) else frozenset()
         allst = [st] + list(all_nested(st))
         for s in allst:
             if s.outcome == 'skipped':
@@ -59,28 +77,15 @@ def summarise(prop, w, steps):
                         (s.store is not None and s.store.route.startswith('resize') and s.outcome == 'ok'):
                     nontrivial = True
             elif prop == 'C04':
-                tgt = s.dest if s.dest is not None else (s.new[0] if s.new else None)
                 involved = set(([s.dest] if s.dest is not None else []) + list(s.srcs))
-                if involved & flagged and s.kind in ('inplace', 'indexed', 'derive', 'construct'):
+                if involved & flagged_before and s.kind in ('inplace', 'indexed', 'derive', 'construct'):
                     nontrivial = True
-                for k in ([s.dest] if s.dest is not None else []) + list(s.new):
-                    if k is not None and w.slots[k].alive and isinstance(w.slots[k].obj.status, dict) and \
-                            any(w.slots[k].obj.status.get(f) for f in ('overflow', 'underflow', 'inaccuracy')):
-                        flagged.add(k)
             elif prop == 'C10':
                 if s.store is not None and s.store.src is not None and s.outcome == 'ok':
                     if hop_inexact_seen:
                         nontrivial = True
                     if s.extra.get('hop_inexact'):
                         hop_inexact_seen = True
-        # abstract world state after this top-level step
-        ws = []
-        for i in w.live():
-            o = w.slots[i].obj
-            fl = tuple(bool(o.status.get(f)) for f in ('overflow', 'underflow', 'inaccuracy')) \
-                if isinstance(o.status, dict) else None
-            ws.append((o.signed, o.n_word, o.n_frac, fl, w.slots[i].origin))
-        states.add(hash(tuple(sorted(ws, key=repr))))
     tri = set()
     names = [k[0] for k in kinds]
     for a in range(len(names) - 2):
@@ -100,6 +105,7 @@ def run_one(prop, verif_seed, i, keep_ops=False, max_steps=None, banned=(), tier
     g = Gen(rng, prof, w, banned)
     ops = []
     steps = []
+    post = []
     n = prof.steps if max_steps is None else min(prof.steps, max_steps)
     herr = None
     try:
@@ -107,6 +113,7 @@ def run_one(prop, verif_seed, i, keep_ops=False, max_steps=None, banned=(), tier
             op = g.next_op()
             ops.append(op)
             steps.append(w.execute(op))
+            post.append(abstract_state(w))
             if w.halt:
                 break
     except Exception:
@@ -125,7 +132,7 @@ def run_one(prop, verif_seed, i, keep_ops=False, max_steps=None, banned=(), tier
     r.stats = w.stats
     r.steps = w.seq
     r.profile = dict(prof)
-    r.nontrivial, r.signature, r.states, r.trigrams = summarise(prop, w, steps)
+    r.nontrivial, r.signature, r.states, r.trigrams = summarise(prop, w, steps, post)
     return r
 
 
